@@ -7,6 +7,7 @@
    repeated calls and on an independently loaded copy). *)
 From Coq Require Import List ZArith NArith Bool Floats Sorting.Permutation.
 From WTF Require Import Model.Validate Model.Text Model.Platform Model.Engine Proofs.EngineProofs.
+From WTF Require Proofs.Corollaries.
 Import ListNotations.
 
 (* whatever order the runtime enumerates the score map (or a TF-IDF vector) in, sorting the keys gives one list *)
@@ -15,7 +16,7 @@ Proof. exact collect_order_independent. Qed.
 
 (* the ranking sort only permutes its input: which commands are ranked never depends on it *)
 Theorem ranking_is_permutation : forall (l : list (nat * float)), Permutation (sort_desc by_score l) l.
-Proof. intros l. apply sort_perm. Qed.
+Proof. exact Corollaries.ranking_is_permutation. Qed.
 
 (* the answer is a function of (database, query, options, oracles): two evaluations agree *)
 Theorem search_deterministic : forall E cmds q o nl r1 r2,
